@@ -14,7 +14,8 @@ import (
 )
 
 type Clause struct {
-	Kind  string // requires ensures invariant decreases assert modifies
+	Props []string // properties this clause counts toward (empty = the block's)
+	Kind  string   // requires ensures invariant decreases assert modifies
 	Label string
 	Loop  int
 	Text  string
@@ -44,6 +45,7 @@ type FuncContract struct {
 }
 
 type SiteClause struct {
+	Props   []string
 	Label   string
 	Pattern string
 	Kind    string // requires | assert
@@ -94,6 +96,16 @@ type ContractSet struct {
 
 func NewContractSet() *ContractSet {
 	return &ContractSet{Funcs: map[string]*FuncContract{}, Specs: map[string]*SpecFunc{}}
+}
+
+var reClauseProps = regexp.MustCompile(`^\[((?:C\d+\s*)+)\]\s*(.*)$`)
+
+// splitClauseProps strips a leading "[C11 C16]" tag.
+func splitClauseProps(s string) ([]string, string) {
+	if m := reClauseProps.FindStringSubmatch(strings.TrimSpace(s)); m != nil {
+		return strings.Fields(m[1]), m[2]
+	}
+	return nil, s
 }
 
 var reLabel = regexp.MustCompile(`^([A-Za-z_][A-Za-z0-9_\-\.]*):\s*([^:].*)$`)
@@ -289,6 +301,7 @@ func (cs *ContractSet) LoadContractFile(path string, importPath string) error {
 					cl.Label = m[1]
 					txt = m[2]
 				}
+				cl.Props, txt = splitClauseProps(txt)
 				cl.Text = txt
 				e, err := parse(txt)
 				if err != nil {
@@ -314,6 +327,7 @@ func (cs *ContractSet) LoadContractFile(path string, importPath string) error {
 					cl.Label = m[1]
 					txt = m[2]
 				}
+				cl.Props, txt = splitClauseProps(txt)
 				cl.Text = txt
 				e, err := parse(txt)
 				if err != nil {
@@ -329,6 +343,7 @@ func (cs *ContractSet) LoadContractFile(path string, importPath string) error {
 				}
 				sc := &SiteClause{Label: strings.TrimSpace(rest[:j]), Line: st.line}
 				body := strings.TrimSpace(rest[j+1:])
+				sc.Props, body = splitClauseProps(body)
 				k := -1
 				kind := ""
 				for _, kk := range []string{" requires ", " assert "} {
